@@ -927,7 +927,34 @@ func (p *Prog) argsApplied(r *Report, rule, argsType, method string) map[string]
 	for _, name := range p.commandsEmbedding(argsType) {
 		run := runs[name]
 		var calls []ssa.CallInstruction
-		for _, f := range withAnons(run) {
+		// the Run method, its closures, and package-local helpers it calls (two levels)
+		fns := map[*ssa.Function]bool{}
+		var add func(f *ssa.Function, depth int)
+		add = func(f *ssa.Function, depth int) {
+			for _, g := range withAnons(f) {
+				if fns[g] {
+					continue
+				}
+				fns[g] = true
+				if depth >= 2 {
+					continue
+				}
+				eachInstr(g, func(in ssa.Instruction) {
+					if c, ok := in.(ssa.CallInstruction); ok {
+						if h := staticCallee(c); h != nil && h.Parent() == nil && pkgPathOfFn(h) == modPath+"/klog/app/cli" && len(h.Blocks) > 0 {
+							add(h, depth+1)
+						}
+					}
+				})
+			}
+		}
+		add(run, 0)
+		var ordered []*ssa.Function
+		for g := range fns {
+			ordered = append(ordered, g)
+		}
+		sort.Slice(ordered, func(i, j int) bool { return ordered[i].String() < ordered[j].String() })
+		for _, f := range ordered {
 			for _, c := range callsTo(f, m) {
 				// receiver is the embedded field of the command itself
 				if fa, ok := strip(c.Common().Args[0]).(*ssa.FieldAddr); ok && typeNameOf(fa.X.Type()) == name {
